@@ -514,7 +514,7 @@ func (w *World) quiesce() {
 // ---------------------------------------------------------------------------------------------
 // workload: external writes to the source bucket
 
-var keyClasses = []string{"plain", "plain2", "conn", "txn", "partial", "empty", "binary", "big"}
+var keyClasses = []string{"plain", "plain2", "conn", "txn", "partial", "empty", "binary", "big", "embedded"}
 
 func (w *World) makeKey(class string, vb, n int) []byte {
 	switch class {
@@ -530,6 +530,11 @@ func (w *World) makeKey(class string, vb, n int) []byte {
 		return []byte{0xff, 0x00, byte(vb), byte(n), 0x80}
 	case "plain2":
 		return []byte(fmt.Sprintf("_txnx-%d-%d", vb, n))
+	case "embedded": // a reserved prefix somewhere inside an ordinary key
+		if n%2 == 0 {
+			return []byte(fmt.Sprintf("order_txn:%d-%d", vb, n))
+		}
+		return []byte(fmt.Sprintf("audit:_connector:cbgo:grp:checkpoint:%d-%d", vb, n))
 	}
 	return []byte(fmt.Sprintf("k-%d-%d", vb, n))
 }
